@@ -23,7 +23,7 @@ SYNC_CALLS = {"cudaDeviceSynchronize", "cudaStreamSynchronize", "cudaEventSynchr
 ANNOTATION_CHOICES = ["", "ProfilerStep", "forward", "loss", "optimizer", "data_loading", "u_block_a", "u_block_b", "ProfilerStep#"]
 
 CP_OPTS = dict(steps=[0, 1, 2, 3, 3], w_launch=7, w_sync=3, w_op=4, w_rt=1, max_top=5, streams=3, second_thread=True,
-               event_sync=False, lead_op=False, ensure_kernel=False, kdurs=[1, 2, 4, 7, 12, 20, 30], first_op_children=True, annotation_weight=2, max_depth=4)
+               event_sync=False, lead_op=False, ensure_kernel=False, kdurs=[1, 2, 4, 7, 12, 20, 30], first_op_children=True, annotation_weight=2, max_depth=4, cuda_events=True)
 
 
 class Window:
@@ -54,6 +54,9 @@ class Window:
         host_ids = {r.id for r in self.host}
         self.device = [r for r in self.rows if r.stream != -1 and self.lk[r.id] > 0 and self.lk[r.id] in host_ids
                        and not is_device(self.by_id[self.lk[r.id]])]
+        # "Stream Wait Event" records are analysed wherever they are (the next kernel on their stream may depend on them)
+        dev_ids = {r.id for r in self.device}
+        self.device += [r for r in self.rows if r.stream != -1 and r.name == "Stream Wait Event" and r.id not in dev_ids]
         self.clipped = {r.id: r for r in self.host + self.device}
         self.analysed = {r.id: r for r in self.host if r.cat in NODE_CATS}
         self.analysed.update({r.id: r for r in self.device})
